@@ -20,6 +20,7 @@ import (
 	"os"
 	"strings"
 	"sync"
+	"sync/atomic"
 	"time"
 
 	"google.golang.org/grpc"
@@ -417,6 +418,8 @@ func runHostile(env *hostileEnv, id int, h hreq) HostileEv {
 	return ev
 }
 
+var hostileHangs int32
+
 func init() { drivers["hostile"] = hostileMain }
 
 func hostileMain(args []string) error {
@@ -519,6 +522,11 @@ func hostileMain(args []string) error {
 		go func() {
 			defer wg.Done()
 			for j := range work {
+				// a hung request keeps its goroutine (and possibly a core) for good: after a few of them the rest of the
+				// run would only measure the watchdog - the hangs already recorded decide it
+				if atomic.LoadInt32(&hostileHangs) >= 8 {
+					continue
+				}
 				var ev HostileEv
 				if j.Kind == "Ws" {
 					var writes [][]byte
@@ -530,6 +538,9 @@ func hostileMain(args []string) error {
 				} else {
 					ev = runHostile(envs[j.Opts%len(envs)], j.Case, hreqOf(j))
 					ev.Ev, ev.Rq, ev.Want = j.Kind, j.Rq, j.Want
+				}
+				if ev.Crash == "hang" {
+					atomic.AddInt32(&hostileHangs, 1)
 				}
 				tw.Emit(ev)
 				if side != nil {
